@@ -86,6 +86,13 @@ def run(res, tier, seed):
         if rng.random() < 0.2:
             # an item is added, not a rule: a bare variable (names as in the generator's pool of bare items)
             adds.insert(rng.randrange(len(adds) + 1), {"k": "var", "id": rng.choice(["1a", "9", "10", "zz", "Base", "q7"]), "b": [0, 1]})
+        if rng.random() < 0.08:
+            # a configurator that holds exactly ONE rule, an unnamed group (a single package): what add() starts from must be
+            # what direct construction builds from the same rule
+            k1 = rng.choice(["All", "All", "Any", "AtLeast"])
+            one = {"k": k1, "ch": g.leaves(2, 3), "id": None}
+            if k1 == "AtLeast": one["v"] = 2; one["s"] = None
+            base["ch"] = [one]; res.count("single_unnamed_rule")
         if rng.random() < 0.12:
             # ids whose order depends on how they are compared: decimal ids of different lengths ("9" before "10" as numbers,
             # after it as text) next to an id that starts with a digit ("1a") - the configurator has ONE order for them,
